@@ -709,3 +709,78 @@ def r02f(ctx):
                     else:
                         ctx.ok(cid, mod.loc(st), f"`{acc}` is replaced by a value that does not restart from self")
     ctx.floor("accumulator rebindings in API loops", n, 3)
+
+
+@rule(
+    "R02g",
+    ["C02", "C10"],
+    """THE TOTAL OF A NORMALISED value_counts COUNTS THE ROWS THAT WERE COUNTED: with split_out > 1 the counts are normalised by a separately
+    computed length. With dropna=True (the default) missing values are not counted, so the total must be the length of the series
+    WITHOUT them; with dropna=False of the whole series. In Series.value_counts the value handed to `Len(...)` must be chosen by a
+    conditional on `dropna` whose dropna-arm is `self.dropna()` and whose other arm is `self`; `Len(self)` alone, or the arms swapped,
+    makes the frequencies of split_out=1 and split_out>1 differ whenever the series has missing values.""",
+)
+def r02g(ctx):
+    model = ctx.model
+    c = model.cls("Series", "_collection")
+    fn = model.method(c, "value_counts", own=True).node
+    defs = flow.Defs(fn)
+    lens = [x for x in ast.walk(fn) if isinstance(x, ast.Call) and dotted(x.func) == "Len" and x.args]
+    if not lens:
+        raise AnalysisError("anchor vanished: the Len(...) total of Series.value_counts")
+    for i, call in enumerate(lens):
+        cid = f"_collection.Series.value_counts:normalisation-total#{i}"
+        v = defs.expand(call.args[0], at=flow.point_of(fn, call).stmt)
+        good = False
+        if isinstance(v, ast.IfExp):
+            test, body, orelse = v.test, ast.unparse(v.body), ast.unparse(v.orelse)
+            neg = isinstance(test, ast.UnaryOp) and isinstance(test.op, ast.Not)
+            subj = ast.unparse(test.operand if neg else test)
+            if subj == "dropna":
+                drop_arm, keep_arm = (orelse, body) if neg else (body, orelse)
+                good = drop_arm == "self.dropna()" and keep_arm == "self"
+        if good:
+            ctx.ok(cid, c.module.loc(call), "the total follows `dropna`")
+        else:
+            ctx.bad(cid, c.module.loc(call), f"the normalisation total is `Len({ast.unparse(v)[:70]})`: it must be the length of `self.dropna()` when dropna is set and of `self` otherwise - as written, value_counts(normalize=True, split_out>1) divides by a total that includes (or excludes) the missing values the counts exclude (include), so the frequencies do not sum to 1 and differ from split_out=1")
+
+
+@rule(
+    "R02h",
+    ["C02", "C09"],
+    """THE SIDE WHOSE ROW IS PREFERRED IS THE SIDE THAT IS TESTED FOR EMPTINESS: merge_asof carries "the last row of the most recent
+    non-empty partition" (and the first row of the next one) through prefix / suffix reductions with the combiners most_recent_tail /
+    most_recent_head. Each returns ONE row of its preferred operand (`right.tail(1)` / `left.head(1)`) and falls back to the other
+    operand exactly when the PREFERRED one is empty. Testing the other operand instead returns `preferred.head(1)` of an empty frame
+    - no row - whenever a partition is empty, and the look-back / look-ahead row across an empty partition is lost.""",
+)
+def r02h(ctx):
+    model = ctx.model
+    n = 0
+    for fname in ("most_recent_tail", "most_recent_head"):
+        mod, fn = model.func("_merge_asof", fname)
+        n += 1
+        cid = f"_merge_asof.{fname}:fallback-tests-preferred-side"
+        pref = None
+        for p in flow.returns(fn):
+            b = pmatch("V_x.tail(1)", p.stmt.value) or pmatch("V_x.head(1)", p.stmt.value) if p.stmt.value is not None else None
+            if b:
+                pref = b["V_x"]
+        if pref is None:
+            ctx.unclassified(cid, mod.loc(fn), "no `<operand>.head(1)` / `.tail(1)` return found")
+            continue
+        ok = False
+        tested = None
+        for p in flow.returns(fn):
+            v = p.stmt.value
+            if isinstance(v, ast.Name) and v.id != pref:
+                for t, pol in flow.facts(p):
+                    b = pmatch("len(V_y.index) == 0", t) or pmatch("len(V_y) == 0", t) or pmatch("V_y.empty", t)
+                    if pol and b:
+                        tested = b["V_y"]
+                        ok = ok or tested == pref
+        if ok:
+            ctx.ok(cid, mod.loc(fn), f"falls back to the other operand when `{pref}` is empty")
+        else:
+            ctx.bad(cid, mod.loc(fn), f"{fname} prefers a row of `{pref}` but falls back after testing `{tested}` for emptiness: when `{pref}` is an empty partition the combiner returns `{pref}.head/tail(1)` - an empty frame - instead of the row carried so far, so merge_asof loses the nearest row across empty partitions")
+    ctx.floor("asof combiners", n, 2)
